@@ -16,3 +16,5 @@ import page_common as _pc
 PAIRS += _pc.page_free_pairs()      # an empty page is freed at once or kept for a bounded number of cycles inside the scanned bin range; freeing unlinks, detaches and hands it to the segment layer once
 import seg_common as _sc
 PAIRS += [_sc.pairs()['segment_os_free']]      # a segment goes back to the arena layer exactly once with exactly its (base, size, memid)
+import heap_collect_common as _hc
+PAIRS += [_hc.page_collect_pair()]      # per-page step of a collection: empty => freed, live blocks => kept (abandoned on thread exit), never freed
